@@ -154,4 +154,77 @@ Base2ToDecimal(M, E2) ==
                    p5 == B2D5(p4[1], p4[2])
                    p6 == B2D6(p5[1], p5[2])
                IN [k |-> "some", m |-> p6[1], sc |-> -p6[2]]
+
+----------------------------------------------------------------------------
+(* Text to Decimal: the library's reader, transcribed as the state machine  *)
+(* it is.  [+-]? then digits, at most one point, underscores (only after a *)
+(* digit).  Digits accumulate in a 64-bit register and, once that is       *)
+(* nearly full, in a 96-bit one; at most 28 fractional digits are kept and  *)
+(* the FIRST dropped digit alone decides rounding (half up, not half even; *)
+(* later digits are only checked for being digits); a mantissa that would  *)
+(* overflow 96 bits after the point is rounded there instead.  The two     *)
+(* registers treat an underscore at the rounding position differently      *)
+(* (the narrow one reads it as the digit 0), which is transcribed too.     *)
+(* Result: [k |-> "ok", n, sc, exact |-> TRUE] or [k |-> "invalid"].       *)
+(***************************************************************************)
+DInv == [k |-> "invalid"]
+DOkD(neg, data, scale) == [k |-> "ok", n |-> Z(IF neg THEN -1 ELSE 1, data), sc |-> scale, exact |-> TRUE]
+WillOverflowU64 == MSub(MDivSmall(MSub(MPow2(64), <<1>>), 10)[1], MFromNat(255))
+DIsDigit(c) == c >= 48 /\ c <= 57
+PushDigit(data, c) == MAdd(MMulSmall(data, 10), MFromNat(c - 48))
+
+RECURSIVE RestOK(_, _, _)                 \* after the rounding position: digits and underscores, one point if none was seen
+RestOK(cs, r, seen) == IF r > Len(cs) THEN TRUE
+                       ELSE IF DIsDigit(cs[r]) \/ cs[r] = 95 THEN RestOK(cs, r + 1, seen)
+                       ELSE IF cs[r] = 46 /\ ~seen THEN RestOK(cs, r + 1, TRUE) ELSE FALSE
+
+\* nb: the character at the rounding position; r: where the rest starts
+MaybeRound(cs, data, nb, r, scale, point, neg) ==
+  LET digit == IF DIsDigit(nb) THEN nb - 48 ELSE IF nb = 95 THEN 0 ELSE IF nb = 46 /\ ~point THEN 0 ELSE -1 IN
+  IF digit = -1 THEN DInv
+  ELSE LET d1 == IF digit >= 5 THEN MAdd(data, <<1>>) ELSE data
+           over == digit >= 5 /\ MCmp(d1, P96) >= 0
+       IN IF over /\ scale = 0 THEN DInv
+          ELSE IF ~RestOK(cs, r, point \/ nb = 46) THEN DInv
+          ELSE IF over THEN DOkD(neg, MDivSmall(MAdd(d1, <<4>>), 10)[1], scale - 1) ELSE DOkD(neg, d1, scale)
+
+RECURSIVE SkipUnderscores(_, _)
+SkipUnderscores(cs, q) == IF q <= Len(cs) /\ cs[q] = 95 THEN SkipUnderscores(cs, q + 1) ELSE q
+
+RECURSIVE DS128(_, _, _, _, _, _)         \* the wide register; cs[p] exists
+DS128(cs, p, data, scale, point, neg) ==
+  LET b == cs[p] IN
+  IF DIsDigit(b) THEN
+     LET nx == PushDigit(data, b) IN
+     IF MCmp(nx, P96) >= 0 THEN (IF ~point THEN DInv ELSE MaybeRound(cs, data, b, p + 1, scale, point, neg))
+     ELSE LET sc2 == scale + (IF point THEN 1 ELSE 0) IN
+          IF p = Len(cs) THEN DOkD(neg, nx, sc2)
+          ELSE IF point /\ sc2 >= 28 THEN
+               (IF cs[p + 1] = 95
+                THEN LET q == SkipUnderscores(cs, p + 1) IN
+                     IF q > Len(cs) THEN DOkD(neg, nx, sc2) ELSE MaybeRound(cs, nx, cs[q], q + 1, sc2, point, neg)
+                ELSE MaybeRound(cs, nx, cs[p + 1], p + 2, sc2, point, neg))
+          ELSE DS128(cs, p + 1, nx, sc2, point, neg)
+  ELSE IF (b = 46 /\ ~point) \/ b = 95 THEN
+     (IF p = Len(cs) THEN DOkD(neg, data, scale) ELSE DS128(cs, p + 1, data, scale, point \/ b = 46, neg))
+  ELSE DInv
+
+RECURSIVE DS64(_, _, _, _, _, _, _, _)    \* the narrow register
+DS64(cs, p, data, scale, point, neg, has, first) ==
+  IF p > Len(cs) THEN (IF has THEN DOkD(neg, data, scale) ELSE DInv)
+  ELSE LET b == cs[p] IN
+       IF DIsDigit(b) THEN
+          LET d2 == PushDigit(data, b)
+              sc2 == IF point THEN scale + 1 ELSE 0
+          IN IF p = Len(cs) THEN DOkD(neg, d2, sc2)
+             ELSE IF point /\ sc2 >= 28 THEN MaybeRound(cs, d2, cs[p + 1], p + 2, sc2, point, neg)
+             ELSE IF MCmp(d2, WillOverflowU64) >= 0 THEN DS128(cs, p + 1, d2, sc2, point, neg)
+             ELSE DS64(cs, p + 1, d2, sc2, point, neg, TRUE, FALSE)
+       ELSE IF b = 46 /\ ~point THEN DS64(cs, p + 1, data, scale, TRUE, neg, has, FALSE)
+       ELSE IF b = 45 /\ first /\ ~has THEN DS64(cs, p + 1, data, scale, FALSE, TRUE, FALSE, FALSE)
+       ELSE IF b = 43 /\ first /\ ~has THEN DS64(cs, p + 1, data, scale, FALSE, FALSE, FALSE, FALSE)
+       ELSE IF b = 95 /\ has THEN DS64(cs, p + 1, data, scale, point, neg, TRUE, FALSE)
+       ELSE DInv
+
+DecFromStr(cs) == DS64(cs, 1, <<>>, 0, FALSE, FALSE, FALSE, TRUE)
 =============================================================================
